@@ -36,13 +36,26 @@ import (
 //	stage  TOTAL(in CC all, out int s)                   (optional, in TOP)
 //	pipeline PER(in C xs, out C ys [, out int s]) { [SPREAD]; map call LEAF(x = split ...); [SUM] }
 //	pipeline TOP(in int n, ...)            { MAKE; map call PER(xs = split MAKE.lists); [TOTAL] }
-func genNested(t *rapid.T) *mrogen.Program {
+func genNested(t *rapid.T) *mrogen.Program { return genNestedWith(t, os.Getenv("VERIF_NESTED_PLAIN") != "") }
+
+// genNestedWith: plain = only the two map calls and what they need (arrays of
+// arrays, the inner collection passed in, no consumers of merged results, no
+// second argument, no splitting leaf).
+func genNestedWith(t *rapid.T, plain bool) *mrogen.Program {
+	// (VERIF_NESTED_OPTS: exploration - options allowed on top of plain)
+	allowed := os.Getenv("VERIF_NESTED_OPTS")
+	draw := func(label string) bool {
+		return (!plain || strings.Contains(allowed, label)) && rapid.Bool().Draw(t, label)
+	}
 	base := rapid.SampledFrom([]string{"int", "string", "float"}).Draw(t, "elemType")
 	T := ty{Base: base}
 	// inner collection C and outer collection CC of C
 	shapes := []string{"arr-of-arr", "arr-of-arr", "map-of-arr", "arr-of-map"}
 	if only := os.Getenv("VERIF_NESTED_SHAPE"); only != "" {
 		shapes = []string{only}
+	}
+	if plain && !strings.Contains(allowed, "shapes") {
+		shapes = []string{"arr-of-arr"}
 	}
 	shape := rapid.SampledFrom(shapes).Draw(t, "shape")
 	var C, CC, merged, mergedAll ty
@@ -72,12 +85,12 @@ func genNested(t *rapid.T) *mrogen.Program {
 	}
 	mk := st(makeName, []mrogen.Param{pm("n", tInt)}, []mrogen.Param{listsOut})
 	lf := st(leaf, []mrogen.Param{pm("x", T)}, []mrogen.Param{pm("y", T)})
-	withExtra := rapid.Bool().Draw(t, "leafTakesWholeList")
+	withExtra := draw("leafTakesWholeList")
 	if withExtra {
 		// the leaf also sees the whole inner collection, unsplit
 		lf.Ins = append(lf.Ins, pm("all", C))
 	}
-	if rapid.IntRange(0, 3).Draw(t, "leafSplits") == 0 {
+	if (!plain || strings.Contains(allowed, "leafSplits")) && rapid.IntRange(0, 3).Draw(t, "leafSplits") == 0 {
 		lf.Split = true
 		lf.ChunkIns = []mrogen.Param{{Name: "chunk_in", T: tInt}}
 		lf.ChunkOuts = []mrogen.Param{{Name: "chunk_out", T: tInt}}
@@ -86,7 +99,7 @@ func genNested(t *rapid.T) *mrogen.Program {
 
 	perPl := &mrogen.Pipeline{Name: per, Ins: []mrogen.Param{{Name: "xs", T: C, SplitSrc: true}}, Outs: []mrogen.Param{pm("ys", merged)}}
 	var src mrogen.Expr = self("xs")
-	innerProduced := rapid.Bool().Draw(t, "innerProducedInside")
+	innerProduced := draw("innerProducedInside")
 	if innerProduced {
 		sp := st(spread, []mrogen.Param{pm("xs", C)}, []mrogen.Param{pm("zs", C)})
 		p.Stages = append(p.Stages, sp)
@@ -99,7 +112,7 @@ func genNested(t *rapid.T) *mrogen.Program {
 	}
 	perPl.Calls = append(perPl.Calls, lc)
 	perPl.Ret = []mrogen.Binding{{Param: "ys", E: out(leaf, "y")}}
-	if rapid.Bool().Draw(t, "sumInside") {
+	if draw("sumInside") {
 		sm := st("SUM", []mrogen.Param{pm("ys", merged)}, []mrogen.Param{pm("s", tInt)})
 		p.Stages = append(p.Stages, sm)
 		perPl.Calls = append(perPl.Calls, &mrogen.Call{Id: "SUM", Callee: "SUM", Bindings: []mrogen.Binding{{Param: "ys", E: out(leaf, "y")}}})
@@ -113,7 +126,7 @@ func genNested(t *rapid.T) *mrogen.Program {
 		{Id: per, Callee: per, Mapped: true, Bindings: []mrogen.Binding{{Param: "xs", E: mrogen.Split{E: out(makeName, "lists")}}}},
 	}
 	top.Ret = []mrogen.Binding{{Param: "r", E: out(per, "ys")}}
-	if rapid.Bool().Draw(t, "totalOutside") {
+	if draw("totalOutside") {
 		tt := st("TOTAL", []mrogen.Param{pm("all", mergedAll)}, []mrogen.Param{pm("s", tInt)})
 		p.Stages = append(p.Stages, tt)
 		top.Calls = append(top.Calls, &mrogen.Call{Id: "TOTAL", Callee: "TOTAL", Bindings: []mrogen.Binding{{Param: "all", E: out(per, "ys")}}})
@@ -140,6 +153,8 @@ func TestNestedMaps(t *testing.T) {
 			}
 		}()
 		prog := genNested(t)
+		skipTopOuts = os.Getenv("VERIF_NESTED_SKIP_TOP") != ""
+		defer func() { skipTopOuts = false }()
 		for k, v := range excluded {
 			for _, prop := range []string{"C01", "C02", "C03"} {
 				stats.Count(prop, "excluded_known:"+k, int64(v))
@@ -182,11 +197,91 @@ func TestNestedMaps(t *testing.T) {
 	})
 }
 
+// nestedJobLevel is the part of the family on which the unchanged tree gets
+// every job right - which jobs run, once each, with which arguments, in
+// which order: arrays of arrays, the inner collection passed in or produced
+// by a stage of the mapped pipeline, a leaf that may split or take the whole
+// inner collection as well - while the merged results it hands on are wrong
+// for ragged sizes (known finding C01/nested-map-merge-repeats-forks), so
+// that nothing consumes them here and the recorded top-level outputs are not
+// compared while the finding is listed.
+func genNestedJobLevel(t *rapid.T) *mrogen.Program {
+	save := os.Getenv("VERIF_NESTED_OPTS")
+	os.Setenv("VERIF_NESTED_OPTS", "leafTakesWholeList leafSplits innerProducedInside")
+	defer os.Setenv("VERIF_NESTED_OPTS", save)
+	return genNestedWith(t, true)
+}
+
+// TestNestedMapsJobs: C01 (arguments) / C02 (start order) / C03 (every job
+// once) for map calls inside map-called pipelines, ragged sizes included.
+func TestNestedMapsJobs(t *testing.T) {
+	root := workRoot(t)
+	rapid.Check(t, func(t *rapid.T) {
+		defer func() {
+			if p := recover(); p != nil {
+				if _, ok := p.(surveySkip); !ok {
+					panic(p)
+				}
+			}
+		}()
+		prog := genNestedJobLevel(t)
+		if stats.Known("C01/nested-map-merge-repeats-forks") {
+			skipTopOuts = true
+			defer func() { skipTopOuts = false }()
+			excluded["nested-merged-output-not-compared"]++
+		}
+		for k, v := range excluded {
+			for _, prop := range []string{"C01", "C02", "C03"} {
+				stats.Count(prop, "excluded_known:"+k, int64(v))
+			}
+			delete(excluded, k)
+		}
+		semCase(t, root, prog)
+	})
+}
+
+// Reproducer of C01/nested-map-merge-repeats-forks: the plainest program of
+// the family; MAKE's argument decides the sizes, some of the twelve tries are
+// ragged.
+func TestKnownNestedMergeRepeatsForks(t *testing.T) {
+	knownPresent(t, "C01/nested-map-merge-repeats-forks", func(a int) *mrogen.Program {
+		p := &mrogen.Program{U: &mrogen.Universe{Structs: []*mrogen.Struct{{Name: "S0", Fields: []mrogen.Field{{Name: "f", T: tInt}}}}}}
+		tArrArr := ty{Base: "int", Arr: 2}
+		p.Stages = []*mrogen.Stage{
+			st("MAKE", []mrogen.Param{pm("n", tInt)}, []mrogen.Param{{Name: "lists", T: tArrArr, NonEmpty: true}}),
+			st("LEAF", []mrogen.Param{pm("x", tInt)}, []mrogen.Param{pm("y", tInt)}),
+		}
+		per := &mrogen.Pipeline{Name: "PER", Ins: []mrogen.Param{{Name: "xs", T: tIntArr, SplitSrc: true}}, Outs: []mrogen.Param{pm("ys", tIntArr)},
+			Calls: []*mrogen.Call{{Id: "LEAF", Callee: "LEAF", Mapped: true, Bindings: []mrogen.Binding{{Param: "x", E: mrogen.Split{E: self("xs")}}}}},
+			Ret:   []mrogen.Binding{{Param: "ys", E: out("LEAF", "y")}}}
+		top := &mrogen.Pipeline{Name: "TOP", Ins: []mrogen.Param{pm("n", tInt)}, Outs: []mrogen.Param{pm("r", tArrArr)},
+			Calls: []*mrogen.Call{
+				{Id: "MAKE", Callee: "MAKE", Bindings: []mrogen.Binding{{Param: "n", E: self("n")}}},
+				{Id: "PER", Callee: "PER", Mapped: true, Bindings: []mrogen.Binding{{Param: "xs", E: mrogen.Split{E: out("MAKE", "lists")}}}}},
+			Ret: []mrogen.Binding{{Param: "r", E: out("PER", "ys")}}}
+		p.Pipelines = []*mrogen.Pipeline{per, top}
+		p.Top = &mrogen.Call{Id: "TOP", Callee: "TOP", Bindings: []mrogen.Binding{{Param: "n", E: lit(num(a), tInt)}}}
+		return p
+	})
+}
+
 // TestNestedMapsInterrupt: the same family interrupted and re-attached while
 // jobs are in flight (forks of both dimensions are restored from the outputs
 // on disk).
 func TestNestedMapsInterrupt(t *testing.T) {
 	interruptTestWith(t, "C05", []string{"queued", "dead-running", "dead-after-outs", "finished-unnoticed", "alive", "alive-after-outs"}, genNested)
+}
+
+// TestNestedMapsJobsInterrupt: the job-level part of the family (see
+// TestNestedMapsJobs) interrupted and re-attached while jobs are in flight:
+// the forks of both dimensions are restored from the outputs on disk, and
+// every job still runs exactly once, with its arguments, after its producers.
+func TestNestedMapsJobsInterrupt(t *testing.T) {
+	if stats.Known("C01/nested-map-merge-repeats-forks") {
+		skipTopOuts = true
+		defer func() { skipTopOuts = false }()
+	}
+	interruptTestWith(t, "C05", []string{"queued", "dead-running", "dead-after-outs", "finished-unnoticed", "alive", "alive-after-outs"}, genNestedJobLevel)
 }
 
 // TestC07AcceptNested: every program of the nested-map family compiles, so
